@@ -4,6 +4,8 @@
 package chain
 
 import (
+	"github.com/ipld/go-ipld-prime/node/basicnode"
+	cidlink "github.com/ipld/go-ipld-prime/linking/cid"
 	"io"
 	"github.com/ucan-wg/go-ucan/did"
 	varint "github.com/multiformats/go-varint"
@@ -116,6 +118,9 @@ type Inv struct {
 	// representation) - a caller's domain type handed over as is
 	TypedArg bool `json:"typed_arg,omitempty"`
 	OptPerm  int  `json:"opt_perm,omitempty"` // != 0: constructor options handed over in another order
+	// UcanArg: one more argument "ucan" holding a link to the invocation's first proof (second proof when 2) - the
+	// shape of the arguments that commands of the /ucan/... family carry (revocation, attestation)
+	UcanArg int `json:"ucan_arg,omitempty"`
 }
 
 type point struct {
@@ -558,6 +563,9 @@ func BuildInvShared(iv Inv, prf []cid.Cid, reg map[string]*args.Args) (*invocati
 	}
 	if iv.TypedArg {
 		opts = append(opts, invocation.WithArgument("pt", bindnode.Wrap(&point{3, 4}, pointType)))
+	}
+	if iv.UcanArg > 0 && len(prf) > 0 {
+		opts = append(opts, invocation.WithArgument("ucan", basicnode.NewLink(cidlink.Link{Cid: prf[(iv.UcanArg-1)%len(prf)]})))
 	}
 	if iv.Aud >= 0 {
 		opts = append(opts, invocation.WithAudience(Prin(iv.Aud).DID))
